@@ -97,8 +97,10 @@ Record world := mkw {
                               waiting on them (newest first) *)
   consumed : list nat;     (* Deferreds whose result the driver has already taken (they now hold None) *)
   seen : list obs;         (* ghost: the function's own log and the canceller calls, newest first *)
-  held : list nat          (* Deferreds that were fired while explicitly pause()d and have not been unpaused: they
+  held : list nat;         (* Deferreds that were fired while explicitly pause()d and have not been unpaused: they
                               have a raw result but deliver nothing yet; cancel() does not reach them *)
+  stale : bool             (* ghost (coroutines): some await has read a Deferred whose result the driver had already
+                              taken, i.e. has seen None instead of the Deferred's outcome *)
 }.
 
 Definition mem (i : nat) (l : list nat) : bool := existsb (Nat.eqb i) l.
@@ -119,11 +121,29 @@ Definition eff (assign : nat -> outcome) (canc : nat -> cbeh) (c : list nat) (d 
 Section Drive.
   Variable assign : nat -> outcome.
   Variable canc : nat -> cbeh.
+  (** [coro = false]: generator under inlineCallbacks ([x = yield d]); [coro = true]: coroutine under ensureDeferred
+      ([x = await d], which goes through [Deferred.__await__]).  They differ in when an awaited Deferred loses its
+      result.  The driver's callback [_gotResultInlineCallbacks] returns None, so a Deferred holds None once that
+      callback has RETURNED.  Generator: the driver adds the callback at every [yield d]; for an already fired Deferred
+      it runs and returns at once: the result is taken at that moment.  Coroutine: [await d] on a Deferred that has a
+      result never reaches the driver — [__await__] returns [d.result] / raises it and leaves it in place, every time;
+      only when the coroutine was SUSPENDED on d does the driver's callback run (when d fires), and it returns only after
+      the whole synchronous cascade it started — the resumed coroutine running until it suspends again or finishes —
+      is over: until then d still holds its result, afterwards None. *)
+  Variable coro : bool.
 
   Definition current (w : world) (d : nat) : outcome :=
     if mem d (consumed w) then Val VNone else eff assign canc (cancelled w) d.
-  Definition consume (d : nat) (w : world) : world := mkw (fired w) (cancelled w) (d :: consumed w) (seen w) (held w).
-  Definition say (t : obs) (w : world) : world := mkw (fired w) (cancelled w) (consumed w) (t :: seen w) (held w).
+  Definition consume (d : nat) (w : world) : world :=
+    mkw (fired w) (cancelled w) (d :: consumed w) (seen w) (held w) (stale w).
+  Definition say (t : obs) (w : world) : world :=
+    mkw (fired w) (cancelled w) (consumed w) (t :: seen w) (held w) (stale w).
+  Definition note_stale (d : nat) (w : world) : world :=
+    mkw (fired w) (cancelled w) (consumed w) (seen w) (held w) (stale w || mem d (consumed w)).
+  (** reading an already fired Deferred at a [yield d] / [await d] *)
+  Definition after_read (d : nat) (w : world) : world := if coro then note_stale d w else consume d w.
+  (** the Deferred the function was suspended on has fired and the cascade it started is over *)
+  Definition settle (d : nat) (p : status * world) : status * world := (fst p, consume d (snd p)).
 
   Fixpoint drive (g : gen) (w : world) : status * world :=
     match g with
@@ -133,7 +153,7 @@ Section Drive.
     | GYieldV v k => drive (k (Val v)) w
     | GYieldD d k =>
         if mem d (fired w)
-        then drive (k (current w d)) (consume d w)     (* already fired: taken inside the loop *)
+        then drive (k (current w d)) (after_read d w)  (* already fired: taken inside the loop / read by __await__ *)
         else (Suspended d k, w)                         (* return; re-entered by _gotResultInlineCallbacks *)
     | GCancelNow lvl g' =>
         (* cancel() while the function is executing.  Every call from the target down to the running one is cancelled
@@ -154,14 +174,19 @@ Section Drive.
         end
     end.
 
+  (** the function, suspended on d, is resumed with d's outcome *)
+  Definition resume (d : nat) (k : outcome -> gen) (w1 : world) : status * world :=
+    if coro then settle d (drive (k (current w1 d)) w1)
+    else drive (k (current w1 d)) (consume d w1).
+
   (** Deferred d fires (later firings of the same Deferred are ignored by the harness) *)
   Definition fire (d : nat) (p : status * world) : status * world :=
     let '(st, w) := p in
     if mem d (fired w) then (st, w)
     else
-      let w1 := mkw (d :: fired w) (cancelled w) (consumed w) (seen w) (held w) in
+      let w1 := mkw (d :: fired w) (cancelled w) (consumed w) (seen w) (held w) (stale w) in
       match st with
-      | Suspended d' k => if Nat.eqb d d' then drive (k (current w1 d)) (consume d w1) else (st, w1)
+      | Suspended d' k => if Nat.eqb d d' then resume d k w1 else (st, w1)
       | Finished _ => (st, w1)
       end.
 
@@ -180,20 +205,20 @@ Section Drive.
     | Suspended d k =>
         if mem d (held w) then (st, w)     (* fired while paused: [called] is set, Deferred.cancel() does nothing *)
         else
-        let w1 := mkw (d :: fired w) (d :: cancelled w) (consumed w) (Cancelled d :: seen w) (held w) in
-        drive (k (current w1 d)) (consume d w1)
+        let w1 := mkw (d :: fired w) (d :: cancelled w) (consumed w) (Cancelled d :: seen w) (held w) (stale w) in
+        resume d k w1
     end.
 
   Definition hold (d : nat) (p : status * world) : status * world :=
     let '(st, w) := p in
     if mem d (fired w) then (st, w)
-    else (st, mkw (fired w) (cancelled w) (consumed w) (seen w) (d :: held w)).
+    else (st, mkw (fired w) (cancelled w) (consumed w) (seen w) (d :: held w) (stale w)).
 
   Definition step (p : status * world) (o : sop) : status * world :=
     match o with SFire d => fire d p | SCancel => cancel p | SHold d => hold d p end.
 
   (** [pre]: fired (and delivered) before the call; [hold0]: fired while paused before the call *)
-  Definition start (pre hold0 : list nat) (g : gen) : status * world := drive g (mkw pre [] [] [] hold0).
+  Definition start (pre hold0 : list nat) (g : gen) : status * world := drive g (mkw pre [] [] [] hold0 false).
   Definition run (pre hold0 : list nat) (g : gen) (sched : list sop) : status * world :=
     fold_left step sched (start pre hold0 g).
 End Drive.
@@ -212,6 +237,18 @@ Fixpoint sync (out : nat -> outcome) (g : gen) (cons : list nat) (log : list obs
   | GYieldV v k => sync out (k (Val v)) cons log
   | GYieldD d k => sync out (k (if mem d cons then Val VNone else out d)) (d :: cons) log
   | GCall inner k => let '(r, cons1, log1) := sync out inner cons log in sync out (k r) cons1 log1
+  end.
+
+(** ... for a coroutine: an await of a Deferred that has its outcome returns / raises it every time *)
+Fixpoint sync_nc (out : nat -> outcome) (g : gen) (log : list obs) : outcome * list obs :=
+  match g with
+  | GReturn v => (Val v, log)
+  | GRaise e => (Exc e, log)
+  | GLog t g' => sync_nc out g' (push t log)
+  | GCancelNow lvl g' => sync_nc out g' (push (CancelNow lvl) log)
+  | GYieldV v k => sync_nc out (k (Val v)) log
+  | GYieldD d k => sync_nc out (k (out d)) log
+  | GCall inner k => let '(r, log1) := sync_nc out inner log in sync_nc out (k r) log1
   end.
 
 (** the function's own observations (canceller calls are the environment's, not the function's) *)
